@@ -83,6 +83,9 @@ def families(tier):
     for d in range(1, 61):
         nest.append(("d=%d Branch2" % d, "[C][Branch2][P][P]" * d + "[C][=O]" + "[F]" * d))
         nest.append(("d=%d #Branch3" % d, "[S][#Branch3][P][P][P]" * d + "[=O]" * d))
+    # beyond the interpreter's recursion limit (the decoder must not depend on it)
+    for d in (100, 500, 900, 990, 1000, 1010, 1100, 1500, 3000):
+        nest.append(("d=%d Branch3" % d, "[C][Branch3][P][P][P]" * d + "[C][=O]"))
     fams.append(("nesting-depth", "default", nest))
     fams.append(("nesting-depth", HUGE, nest))
     # (6) fragments
@@ -140,7 +143,7 @@ def plan(tier, seed):
                        "range": "%s .. %s" % (members[0][0], members[-1][0])})
         for k in range(0, len(members), 20):
             tasks.append((name, ("family", fi, k, k + 20, tier)))
-    return {"scopes": scopes, "tasks": tasks, "bounds": {"rings_max": 130, "nesting_max": 60, "fragments_max": 50}}
+    return {"scopes": scopes, "tasks": tasks, "bounds": {"rings_max": 130, "nesting_max": 3000, "fragments_max": 50}}
 
 
 _SF = None
